@@ -27,7 +27,7 @@ ASSUMPTIONS = [
     "weight monotonicity is asserted pairwise within the on-target and within the off-target class (weights are defined per class)",
     "clustered references (do_cluster) are not driven",
 ]
-BUDGET_S = {"quick": 240, "thorough": 1500}
+BUDGET_S = {"quick": 600, "thorough": 2400}
 
 
 def setup(run):
